@@ -307,14 +307,11 @@ Definition parseBitParts (parts : list bytes) (c : columnDesc) : res columnDesc 
   | [] => Panic
   end.
 
-(** parseColumn *)
-Definition parseColumn (s : bytes) : res columnDesc :=
-  match s with
-  | [] => Err
-  | _ =>
-    match fields_func type_sep s with
+(** parseColumn, after strings.FieldsFunc *)
+Definition parseParts (s : bytes) (parts : list bytes) : res columnDesc :=
+    match parts with
     | [] => Panic                         (* parts[0]: index out of range *)
-    | (p0 :: rest) as parts =>
+    | p0 :: rest =>
         let c := desc0 p0 in
         let is n := bytes_eqb p0 (bs n) in
         if is "varchar"%string || is "character varying"%string || is "char"%string || is "character"%string then
@@ -339,7 +336,13 @@ Definition parseColumn (s : bytes) : res columnDesc :=
           let '(m1, m2) := reInterval s in
           Ok (mkDesc p0 [] 0%Z [] 0%Z (match m2 with Some d => Some (Z.of_N (d - 48)) | None => None end) 0%Z m1)
         else Ok (desc0 s)
-    end
+    end.
+
+(** parseColumn *)
+Definition parseColumn (s : bytes) : res columnDesc :=
+  match s with
+  | [] => Err
+  | _ :: _ => parseParts s (fields_func type_sep s)
   end.
 
 Definition int_names := map bs ["bigint"; "int8"; "int"; "integer"; "int4"; "smallint"; "int2"; "int64"; "xid"; "xid8"]%string.
